@@ -689,6 +689,64 @@ example :
     (refresh s0 w 8).2.2.2 = .failed ∧ (refresh s0 w 8).1.mConn = some ⟨0, true, .arr .slave⟩ ∧
     Act.role 0 (.arr .slave) ∈ (refresh s0 w 8).2.2.1 := by decide
 
+/-! ### events that arrive during a refresh -/
+
+theorem refreshLoop_same (head : Addr) (budget : Nat) (s : St) (w : World) (acts : List Act) :
+    Same s (refreshLoop head budget s w acts).1 := by
+  induction budget generalizing s w acts with
+  | zero => exact ⟨rfl, rfl⟩
+  | succ n ih =>
+    unfold refreshLoop
+    split
+    · exact ⟨rfl, rfl⟩
+    · have hs := tryFront_same s w
+      simp only []
+      split
+      · exact hs
+      · split
+        · exact hs
+        · split
+          · exact hs
+          · have := ih { (tryFront s w).1 with sentinels := moveToBack (tryFront s w).1.sentinels (s.sentinels.headD 0) }
+              (tryFront s w).2.1 (acts ++ (tryFront s w).2.2.1)
+            exact ⟨this.1.trans hs.1, this.2.trans hs.2⟩
+
+theorem refresh_same (s : St) (w : World) (budget : Nat) : Same s (refresh s w budget).1 := by
+  unfold refresh
+  cases hl : s.sentinels with
+  | nil => exact ⟨rfl, rfl⟩
+  | cons head rest =>
+    have := refreshLoop_same head budget s w []
+    simp only []
+    split
+    · exact this
+    · split <;> exact this
+
+/-- **event_during_refresh_not_lost.** A +switch-master (or +reboot master) event for our master set that
+    arrives while a refresh is running is handled right after that refresh — whatever the refresh decided,
+    even if it re-confirmed the old master from a stale sentinel answer: if the named node can be dialled
+    and answers ROLE "master", it is the master target afterwards. -/
+theorem event_during_refresh_not_lost (s : St) (w : World) (a : Addr) (fuel budget : Nat)
+    (hstop : s.stopped = false)
+    (hdial : (refresh s w budget).2.1.nodeDialOk a = true)
+    (hrole : (refresh s w budget).2.1.roleOf a = .arr .master) :
+    (eventDuringRefresh s w (.switchMaster true a) fuel budget).1.mConn = some ⟨a, false, .arr .master⟩ ∧
+    (eventDuringRefresh s w (.rebootMaster true a) fuel budget).1.mConn = some ⟨a, false, .arr .master⟩ ∧
+    (eventDuringRefresh s w (.switchMaster true a) fuel budget).1.mAddr = some a := by
+  have hst : (refresh s w budget).1.stopped = false := (refresh_same s w budget).2.trans hstop
+  have := switch_master_moves (refresh s w budget).1 (refresh s w budget).2.1 a fuel budget hst hdial hrole
+  exact ⟨this.2.1, this.2.2, this.1⟩
+
+/-- the lost-event scenario of the seeded change, on the model: the refresh re-confirms the old master 0
+    (stale sentinel, node 0 still answers "master"), the event names node 1 — the client ends on node 1 -/
+example :
+    let s0 : St := { mode := .masterOnly, sentinels := [100], mAddr := some 0, mConn := some ⟨0, false, .arr .master⟩,
+                     reportedM := [0] }
+    let w : World := { sent := fun _ => ⟨true, some [], .addr 0, none⟩, nodeDialOk := fun _ => true,
+                       roles := [(0, [.arr .master]), (1, [.arr .master])] }
+    (refresh s0 w 8).1.mConn = some ⟨0, false, .arr .master⟩ ∧
+    (eventDuringRefresh s0 w (.switchMaster true 1) 4 8).1.mConn = some ⟨1, false, .arr .master⟩ := by decide
+
 /-! ### non-vacuity -/
 
 def demoWorld (roleN0 roleN1 : List RoleAns) (master : Addr) : World :=
